@@ -145,3 +145,28 @@ static STAGE3_RULES: LazyLock<Vec<Rewrite>> = LazyLock::new(|| {
     rules.append(&mut rules::order::order_rules());
     rules
 });
+
+/// Verification hook: the rewrite rules the optimiser runs, per stage, as the compiled rule
+/// objects describe themselves: (stage, name, left-hand pattern, right-hand pattern if it is one).
+#[cfg(feature = "verif")]
+pub fn verif_rule_inventory() -> Vec<(String, String, Option<String>, Option<String>)> {
+    let extra = rules::range::filter_scan_rule();
+    let stages: [(&str, &[Rewrite]); 4] = [
+        ("stage1", &STAGE1_RULES),
+        ("stage2", &STAGE2_RULES),
+        ("stage3", &STAGE3_RULES),
+        ("range", &extra),
+    ];
+    let mut out = vec![];
+    for (stage, rules) in stages {
+        for r in rules.iter() {
+            out.push((
+                stage.to_string(),
+                r.name.to_string(),
+                r.searcher.get_pattern_ast().map(|p| p.to_string()),
+                r.applier.get_pattern_ast().map(|p| p.to_string()),
+            ));
+        }
+    }
+    out
+}
